@@ -11,6 +11,7 @@ from liquid2 import Tag
 from liquid2 import TagToken
 from liquid2 import TokenStream
 from liquid2 import TokenType
+from liquid2.builtin import identifier_str
 from liquid2.builtin import parse_primitive
 from liquid2.builtin import parse_string_or_identifier
 from liquid2.exceptions import LiquidSyntaxError
@@ -38,7 +39,7 @@ class CycleNode(Node):
 
     def __str__(self) -> str:
         assert isinstance(self.token, TagToken)
-        name = f"{self.name}: " if self.name else ""
+        name = f"{identifier_str(self.name)}: " if self.name else ""
         items = ", ".join(str(i) for i in self.items)
         return f"{{%{self.token.wc[0]} cycle {name}{items} {self.token.wc[1]}%}}"
 
